@@ -4561,7 +4561,7 @@ def _form_to_layout(
             container,
             partnum,
             key_format,
-            length,
+            len(mask),
             lazy_cache,
             lazy_cache_key,
         )
